@@ -8,13 +8,18 @@ W = "0-9A-Za-z_"
 SAFE_BODY = f"[{W} \\-.#()]*"
 
 
-@contract(S + "Image.make_safe_name", assumed=True,
-          note="pure string function (regex sub with a look-behind: not modelled); its result is not used by make_export_name")
+@contract(S + "Image.make_safe_name", props=["C10"], regex_decomposition=True)
 def _msn(c):
+    # what `ls` prints for an item (C10): made of word characters, blanks and - = : . @ # & + only - so it contains NO path separator and can be
+    # typed back as one path component - and it carries no blank at either end (parse_path strips every token before comparing)
     c.self_obj(("self", "smpl_extract.structural:Image", {}))
     c.param("name", "str")
     c.param("is_file", "bool")
+    c.requires("in_re(name, '[\\\\x00-\\\\x7f]*')", "ascii-name")
     c.returns("str")
+    c.ensures("in_re(result, '[0-9A-Za-z_\\\\-=:.@#&+ ]*')", "only-printable-name-characters")
+    c.ensures("not in_re(result, '.*[/\\\\\\\\].*')", "contains-no-path-separator")
+    c.ensures("py_strip(result) == result", "no-blank-at-either-end")
     c.modifies()
 
 
